@@ -14,8 +14,12 @@ VARIABLES l, nodeOf,  \* position in the trace;  [chan -> <<node of side 1, node
 Rec == ndJsonDeserialize(IOEnv.TRACE)
 tvars == <<cvars, l, nodeOf, saved, everRAA, projB, fw>>
 
+\* events about a channel opened during the run (not in the `open` record) are handled by TExtra
+ChanEvents == {"msg", "deliver", "persist", "complete", "proj"}
+Extra == l <= Len(Rec) /\ ((Rec[l].ev \in ChanEvents /\ Rec[l].chan # 0 /\ Rec[l].chan \notin DOMAIN nodeOf)
+                           \/ (Rec[l].ev = "event" /\ Rec[l].kind = "ChannelClosed" /\ Rec[l].chan \notin DOMAIN nodeOf))
 R == Rec[l]
-IsEvent(e) == l <= Len(Rec) /\ Rec[l].ev = e /\ l' = l + 1
+IsEvent(e) == l <= Len(Rec) /\ Rec[l].ev = e /\ l' = l + 1 /\ ~Extra
 Aux == <<nodeOf, saved, everRAA, projB, fw>>
 Stutter == UNCHANGED <<cvars, Aux>>
 Closed(e) == link[e] = "closed"
@@ -35,7 +39,7 @@ NoDup(c) == Cardinality(ToSet(c.nondust)) = Len(c.nondust) /\ Cardinality(ToSet(
 TraceInit ==
   /\ l = 1 /\ nodeOf = <<>> /\ saved = <<>> /\ everRAA = <<>> /\ projB = <<>>
   /\ fw = [adds |-> {}, downFul |-> {}, upClaimed |-> {}, settledNow |-> {}, base0 |-> <<>>, pol |-> <<>>,
-           shut |-> {}, closeFee |-> <<>>]
+           shut |-> {}, closeFee |-> <<>>, newInfl |-> {}]
   /\ par = <<>> /\ cnt = <<>> /\ hs = <<>> /\ fees = <<>> /\ feeBase = <<>> /\ base = <<>>
   /\ link = <<>> /\ redo = <<>> /\ lastCS = <<>> /\ order = <<>> /\ pts = <<>> /\ mon = <<>>
   /\ ownExp = <<>>
@@ -68,7 +72,7 @@ TOpen ==
         /\ saved' = <<>> /\ projB' = <<>>
         /\ fw' = [adds |-> {}, downFul |-> {}, upClaimed |-> {}, settledNow |-> {},
                    base0 |-> [e \in E |-> IF e[2] = 1 THEN cs[ch(e[1])].bal_a_msat ELSE cs[ch(e[1])].bal_b_msat],
-                   pol |-> R.policy, shut |-> {}, closeFee |-> [c \in C |-> 0]]
+                   pol |-> R.policy, shut |-> {}, closeFee |-> [c \in C |-> 0], newInfl |-> {}]
 
 \* not part of the commitment protocol; `warning` / `disconnect_peer` ask the transport to drop the
 \* peer (the harness then disconnects, as PeerManager would) -- an `error` is never acceptable
@@ -243,8 +247,10 @@ CoopOutputs(c, atDust) ==
   IN (IF klo THEN <<lo>> ELSE <<>>) \o (IF khi THEN <<hi>> ELSE <<>>)
 TBroadcast ==
   /\ IsEvent("broadcast") /\ Stutter
+  \* the funding transaction of a new channel is not broadcast while its first monitor write is in flight
+  /\ R.type = "Funding" => G9(\A p \in fw.newInfl : p[1] # R.node)
   /\ (R.type = "CooperativeClose" /\ R.spends_chan # 0) => G1(R.out_values \in {CoopOutputs(R.spends_chan, TRUE), CoopOutputs(R.spends_chan, FALSE)})
-  /\ R.c_num >= 0 =>
+  /\ (R.c_num >= 0 /\ R.chan \in DOMAIN nodeOf) =>
        LET o == EP(R.chan, R.node) IN
        /\ G1(Closed(o))                      \* never on a live channel
        /\ G5(R.c_num >= everRAA[o])          \* never a commitment whose secret was released
@@ -285,10 +291,24 @@ TProj ==
         G12(b.out_cap = R.out_cap /\ b.in_cap = R.in_cap /\ b.n_in = R.n_in /\ b.n_out = R.n_out /\ b.ready = R.ready)
 
 TOther ==
-  /\ l <= Len(Rec) /\ Rec[l].ev \in {"forward", "claim", "fail", "fee", "tick", "block", "persist_mode", "restarted", "close"}
+  /\ l <= Len(Rec) /\ Rec[l].ev \in {"forward", "claim", "fail", "fee", "tick", "block", "persist_mode", "restarted", "close", "open_extra"}
   /\ l' = l + 1 /\ Stutter
 
-TraceNext == TOpen \/ TMsg \/ TDeliver \/ TPersist \/ TComplete \/ TSend \/ TDisconnect \/ TReconnect
+\* ---- a channel opened while the run is in progress (C09: nothing that depends on the initial
+\* monitor write is released before that write is durable)
+TExtra ==
+  /\ Extra /\ l' = l + 1
+  /\ UNCHANGED <<cvars, nodeOf, saved, everRAA, projB>>
+  /\ LET r == Rec[l] IN
+     /\ fw' = IF r.ev = "persist" /\ r.kind = "new" /\ r.status = "inprogress"
+               THEN [fw EXCEPT !.newInfl = @ \cup {<<r.node, r.chan>>}]
+               ELSE IF r.ev = "complete" THEN [fw EXCEPT !.newInfl = @ \ {<<r.node, r.chan>>}]
+               ELSE fw
+     \* (funding_signed is deliberately sent at once by the acceptor -- it has nothing at stake yet --
+     \* and is not in the property's list; channel_ready and the funding broadcast are)
+     /\ (r.ev = "msg" /\ r.kind = "channel_ready") => G9(<<r.from, r.chan>> \notin fw.newInfl)
+
+TraceNext == TExtra \/ TOpen \/ TMsg \/ TDeliver \/ TPersist \/ TComplete \/ TSend \/ TDisconnect \/ TReconnect
              \/ TEvent \/ TOther \/ TMgrSnap \/ TCrash \/ TBroadcast \/ TProj
 
 TraceSpec == TraceInit /\ [][TraceNext]_tvars
